@@ -839,6 +839,8 @@ int __wrap_mbtowc(wchar_t *pwc, const char *s, size_t n) { if (s) libc_probe(30)
 int __wrap_mblen(const char *s, size_t n) { if (s) libc_probe(30); else on_event(); int r = mblen(s, n); on_event(); return r; }
 size_t __wrap_mbrtowc(wchar_t *pwc, const char *s, size_t n, mbstate_t *ps) { if (!ps) libc_probe(31); else on_event(); size_t r = mbrtowc(pwc, s, n, ps); on_event(); return r; }
 size_t __wrap_mbrlen(const char *s, size_t n, mbstate_t *ps) { if (!ps) libc_probe(31); else on_event(); size_t r = mbrlen(s, n, ps); on_event(); return r; }
+// glibc's <wchar.h> inlines mbrlen(s, n, NULL) to __mbrlen
+size_t __wrap___mbrlen(const char *s, size_t n, mbstate_t *ps) { if (!ps) libc_probe(31); else on_event(); size_t r = mbrlen(s, n, ps); on_event(); return r; }
 size_t __wrap_mbsrtowcs(wchar_t *d, const char **src, size_t len, mbstate_t *ps) { if (!ps) libc_probe(31); else on_event(); size_t r = mbsrtowcs(d, src, len, ps); on_event(); return r; }
 size_t __wrap_mbsnrtowcs(wchar_t *d, const char **src, size_t nms, size_t len, mbstate_t *ps) { if (!ps) libc_probe(31); else on_event(); size_t r = mbsnrtowcs(d, src, nms, len, ps); on_event(); return r; }
 size_t __wrap_wcrtomb(char *s, wchar_t wc, mbstate_t *ps) { on_event(); size_t r = wcrtomb(s, wc, ps); on_event(); return r; }
